@@ -46,4 +46,5 @@ KF_C07(o, r) ==
   IF "outcome" \in DOMAIN o /\ o.outcome = "hang" /\ "input_case" \in DOMAIN o /\ "tag" \in DOMAIN o.input_case
      /\ o.input_case.tag.k = "slice" /\ o.input_case.tag.lo = <<"--", "2147483647">> /\ o.input_case.tag.f[1] = "~#" /\ o.input_case.tag.f[4] = "\"a\""
   THEN "C07-slice-cast-from-huge-negative-start" ELSE "NEW"
+KF_C08(o, run, why) == "NEW"
 ==============================================================================
